@@ -1649,6 +1649,7 @@ func (m *Machine) call(x *ssa.Call, state map[string]Vec) {
 				okRes = false
 			}
 		}
+		muxed := false
 		// two returns on the two sides of one test (`if b { return 1 << k }; return 0`): the result is the mux of
 		// the two values over the test's condition
 		if !okRes && len(sub.Returns) == 2 && len(sub.Returns[0].Results) > 0 && len(sub.Returns[1].Results) > 0 {
@@ -1679,18 +1680,22 @@ func (m *Machine) call(x *ssa.Call, state map[string]Vec) {
 							mx[j] = muxBit(c[0], tv[j], fv[j])
 						}
 						res, okRes = mx, true
+						muxed = true
 					}
 				}
 			}
 		}
 		if okRes && len(res) == w {
-			hasTop := false
+			hasTop, allTop := false, true
 			for _, b := range res {
 				if b.K == Top {
 					hasTop = true
+				} else {
+					allTop = false
 				}
 			}
-			if !hasTop {
+			// a muxed result keeps the bits it knows (`bitIf(p != nil, 0x04)`: bit 2 unknown, the others zero)
+			if !hasTop || (muxed && !allTop) {
 				m.setEnv(x, res)
 				return
 			}
